@@ -401,6 +401,25 @@ def run(ctx: Ctx) -> None:
                              "a descent that receives an empty stack never finds its callee on it: a cycle through this call is analysed for ever (RecursionError instead of CIRCULAR_CALL)")
     rep.floor("C11.R11", n11, 3)
 
+    # ---- R14: every decorator is looked at ----
+    rep.rule("C11.R14", "the search for the dds decorator of a function examines every decorator of the list: inside the loop over `decorator_list` nothing returns "
+                        "'no path' (a decorator of another library stacked above @dds.data_function must not hide the path from the overlap test)")
+    n14 = 0
+    for f_ in prog.funcs.values():
+        if f_.module.name not in ("dds.introspect", "dds._introspect_indirect"):
+            continue
+        for lp in [x for x in f_.own_nodes() if isinstance(x, ast.For) and isinstance(x.iter, ast.Attribute) and x.iter.attr == "decorator_list"]:
+            n14 += 1
+            early = [r for st in lp.body for r in ast.walk(st) if isinstance(r, ast.Return) and (r.value is None or (isinstance(r.value, ast.Constant) and r.value.value is None))]
+            desc = f"{f_.name}: the loop over the decorators ends only when the dds decorator is found"
+            if early:
+                rep.bad("C11.R14", f_.qname, desc, f_.loc(early[0]), [f"{f_.loc(early[0])}: `return None` inside the loop: the decorators after this one are not examined",
+                        "`@other.deco(1)` above `@dds.data_function('/w/a')`: the path '/w/a' is not seen, '/w/a/b' kept elsewhere is not reported as overlapping, user functions run and "
+                        "the evaluation dies later with KeyError"], stmt_key(early[0]), what="a decorator stacked above the dds decorator hides the function's path from the analysis")
+            else:
+                rep.ok("C11.R14", f_.qname, desc, f_.loc(lp))
+    rep.floor("C11.R14", n14, 1)
+
     # ---- R13: the functions of every accepted module are followed ----
     if rep.prop == "C11":
         from . import c14 as _c14
